@@ -30,11 +30,11 @@ pub fn find_first_excess_utxo(utxos: &HashSet<Utxo>, target: &CanonicalAssets) -
         utxos.iter().map(|x| x.r#ref.clone()).collect(),
     ));
 
-    let available = utxos
-        .iter()
-        .fold(CanonicalAssets::empty(), |acc, x| acc + x.assets.clone());
+    let available = utxos.iter().fold(CanonicalAssets::empty(), |acc, x| {
+        acc.saturating_add(x.assets.clone())
+    });
 
-    let excess = available - target.clone();
+    let excess = available.saturating_sub(target.clone());
 
     if excess.is_empty_or_negative() {
         return None;
